@@ -8,8 +8,9 @@ PARTIAL = [
     "`legalizeWith_orient`), and for the primitives (`swap_never_throws`, `insert_never_throws`: a move accepted by "
     "canSwap/canInsert is carried out, canPlace inside included).  Not proved: that the optimiser's loops (runSwaps/runInserts/"
     "runShifts/RowReordering and the incremental net model) call the primitives only with arguments inside the contract and "
-    "raise no exception of their own; this is tied by the hook-H3 history replay + the direct oracle (placeDetailed must neither "
-    "throw nor abort whenever legalize alone succeeded and returned a legal placement)",
+    "raise no exception of their own; this is tied by the hook-H3 history replay + the direct oracle (placeDetailed, and every "
+    "public pass of DetailedPlacer driven directly with arbitrary window arguments, must neither throw nor abort whenever "
+    "legalize alone succeeded and returned a legal placement)",
     "`inv_init`, `inv_legal`, `init_of_legal` on an arbitrary circuit assume that no movable cell carries the orientation INVALID "
     "and `fromCircuit_ok_of_legal` assumes `OrientLegal` (one-row cells have the orientation their row demands): C01's `Legal` "
     "contains neither; both are proved for legalization's results (`legalize_noInvalid`, `legalize_orientLegal`), so "
@@ -44,7 +45,9 @@ LEVEL_TEXT = ("Lean 4 theorems over an executable model of DetailedPlacement's d
               "legal in C01's sense (inv_legal: order along the links is transitive, segments are disjoint free space, unoptimised "
               "cells were obstacles, turn status never changes).  The model is tied to the C++ by a differential stream on the "
               "public API (state compared and Inv evaluated after every operation) and, with hook H3, by replaying the optimiser's "
-              "move history of real Circuit::placeDetailed runs (Inv evaluated after every replayed move); the direct oracle checks "
+              "move history of real Circuit::placeDetailed runs and of DetailedPlacer passes driven directly with arbitrary window "
+              "arguments (runInserts and the per-row variants included, which placeDetailed never calls; Inv evaluated after every "
+              "replayed move); the direct oracle checks "
               "legality in every Detailed callback and on return, that ignored cells do not move, and that placeDetailed never fails "
               "after legalize succeeded; thorough tier: exhaustive enumeration of all feasible swap/insert sequences of length <= 4 "
               "on small instances through the real API")
